@@ -29,11 +29,13 @@ tier="${1:-quick}"
 gseed="${VERIF_SEED:-20260926}"
 case "$gseed" in ''|*[!0-9]*) gseed=20260926;; esac
 base=$(( gseed % 100000 ))
-threads=6; rounds=1
+rounds=1
+# which:rate:seeds:threads   (which 0 de, 1 nl, 2 it: the shared splitter kept busy by 6 callers;
+#                             3: en/fr/es/pt, every entry point, 3 callers)
 if [ "$tier" = "thorough" ]; then
-  configs="0:0.9:48 1:0.9:48 2:0.9:48 0:0.3:24 1:0.3:24 2:0.3:24"
+  configs="0:0.9:48:6 1:0.9:48:6 2:0.9:48:6 3:0.9:32:3 0:0.3:24:6 1:0.3:24:6 2:0.3:24:6 3:0.3:16:3"
 else
-  configs="0:0.9:5 1:0.9:5 2:0.9:5"
+  configs="0:0.9:4:6 1:0.9:4:6 2:0.9:4:6 3:0.9:4:3"
 fi
 nseeds="per-config"
 start=$(date +%s)
@@ -45,19 +47,20 @@ fi
 # repeatable execution
 jobs=""
 for cfg in $configs; do
-  IFS=: read -r which rate n <<<"$cfg"
-  for s in $(seq "$base" "$((base+n-1))"); do jobs="$jobs$which $rate $s\n"; done
+  IFS=: read -r which rate n th <<<"$cfg"
+  for s in $(seq "$base" "$((base+n-1))"); do jobs="$jobs$which $rate $s $th\n"; done
 done
 resdir=$(mktemp -d "$HERE/replays/.miri-XXXXXX")
 printf "$jobs" | xargs -P 16 -L 1 sh -c '
-  cd "'"$MIRI"'" && MIRIFLAGS="-Zmiri-seed=$2 -Zmiri-preemption-rate=$1" cargo +nightly miri run --offline -- '"$threads $rounds"' 0 "$0" >"'"$resdir"'/$0-$1-$2.out" 2>&1
+  cd "'"$MIRI"'" && MIRIFLAGS="-Zmiri-seed=$2 -Zmiri-preemption-rate=$1" cargo +nightly miri run --offline -- $3 '"$rounds"' 0 "$0" >"'"$resdir"'/$0-$1-$2.out" 2>&1
   echo $? >"'"$resdir"'/$0-$1-$2.rc"' 
-total=0; viol=0; replay=""; detail=""
+total=0; viol=0; replay=""; detail=""; threads=6
 for rcf in $(ls "$resdir"/*.rc | sort -V); do
   rc=$(cat "$rcf"); outf="${rcf%.rc}.out"
   if [ "$rc" = "0" ] && grep -q "MIRI-OK" "$outf"; then total=$((total+1)); continue; fi
   if [ $viol -eq 0 ]; then
     b=$(basename "${rcf%.rc}"); IFS=- read -r which rate fs <<<"$b"
+    threads=6; [ "$which" = "3" ] && threads=3
     detail=$(grep -E "MIRI-MISMATCH|error: Undefined|Data race|panicked" "$outf" | head -2 | tr '\n' ' ' | cut -c1-400)
     replay="$HERE/replays/C14-miri-$which-$rate-$fs.json"
     python3 - "$replay" "$which" "$rate" "$threads" "$rounds" "$fs" "$detail" <<'PY'
@@ -79,7 +82,7 @@ p,tier,total,viol,wall,configs,nseeds,threads,rounds,base=sys.argv[1:11]
 try: d=json.load(open(p))
 except Exception: sys.exit(0)
 d.setdefault("coverage",{}).setdefault("extra",{})["miri_layer"]={
-  "seed_runs_ok":int(total),"configs_which_rate_seeds":configs.split(),"first_miri_seed":int(base),
+  "seed_runs_ok":int(total),"configs_which_rate_seeds_threads":configs.split(),"first_miri_seed":int(base),
   "threads":int(threads),"rounds":int(rounds),"wall_s":int(wall),
   "what":"real std::thread callers sharing one set of interpreters, Miri scheduler deterministic per seed, basic-block preemption, data-race and UB detection; shipped code only (hooks off)"}
 d["violations"]=int(d.get("violations",0))+int(viol)
@@ -91,5 +94,5 @@ if [ $viol -ne 0 ]; then
   echo "VIOLATION property=C14 replay=$replay"
   exit 1
 fi
-echo "miri layer: $total seed-runs ok (which:rate:seeds = $configs, $threads threads) in ${wall}s"
+echo "miri layer: $total seed-runs ok (which:rate:seeds:threads = $configs) in ${wall}s"
 exit 0
